@@ -11,6 +11,8 @@ TARGETS = {}
 for n in range(16):
     TARGETS["queues.R%d" % n] = dict(src="scenarios/queues.cpp", defs=["-DXV_RECL=%d" % n])
 TARGETS["queues.norecl"] = dict(src="scenarios/queues.cpp", defs=["-DXV_NORECL"])
+for n in range(16):
+    TARGETS["reclaim.R%d" % n] = dict(src="scenarios/reclaim.cpp", defs=["-DXV_RECL=%d" % n])
 
 GENERIC_KINDS = {"use-after-free", "wild-access", "double-free", "bad-free", "crash", "hang", "deadlock", "watchdog"}
 RACE_KINDS = {"race", "race-free", "race-free-vs-atomic"}
@@ -43,6 +45,15 @@ def attribute(scenario, config, kind, primary, weak):
             props = ["C16"]
         else:  # crashes, heap errors, hangs: the history is broken for every property this scenario serves
             props = [lin, "C07"]
+    elif fam == "reclaim":
+        if kind in ("solo-bound", "solo-blocked"):
+            props = ["C16"]
+        elif primary and kind not in GENERIC_KINDS:
+            props = [primary]
+        elif kind in ("double-free", "bad-free"):
+            props = ["C02", "C01"]
+        else:  # use-after-free, crash, hang ... : the reclamation protocol itself is broken
+            props = ["C01", "C02", "C15", "C17"]
     else:
         props = [primary] if primary else []
     if weak and "C03" not in props:
@@ -132,11 +143,85 @@ PLANS["C07"] = plan_queue_lin(
     "after hand-out, never by the queue for raw pointers, rejected values stay with the caller; heap oracle catches double frees",
     ["destroyed_with_elements"])
 
+def generic_jobs(list_configs, family, recls, pattern, variant, mode, execs, seed, window=16, extra=None, per_job=1):
+    jobs = []
+    for r in recls:
+        t = "%s.R%d" % (family, r)
+        cfgs = cfgs_matching(list_configs, t, variant, pattern)
+        for i in range(0, len(cfgs), per_job):
+            chunk = cfgs[i:i + per_job]
+            args = ["--cfg", ",".join(chunk), "--mode", mode, "--seed", str(seed), "--execs", str(execs), "--window", str(window)]
+            if extra:
+                args += extra
+            jobs.append(dict(target=t, variant=variant, args=args, timeout=3600))
+    return jobs
+
+
+def plan_reclaim(prop, pattern, execs_quick, execs_thorough, rule, gate_counters):
+    recls = R8 + RPLUS
+
+    def targets(tier):
+        return [("reclaim.R%d" % r, "xrt-prod") for r in recls]
+
+    def jobs(tier, seed, list_configs):
+        execs = execs_quick if tier == "quick" else execs_thorough
+        return generic_jobs(list_configs, "reclaim", recls, pattern, "xrt-prod", "sc", execs, seed)
+
+    def gates(tier, agg, counters, per_config, distinct):
+        msgs = []
+        if agg["execs"] == 0:
+            msgs.append("no executions")
+        if distinct < 100:
+            msgs.append("only %d distinct non-trivial histories" % distinct)
+        for c, minimum in gate_counters.items():
+            if counters.get(c, 0) < minimum:
+                msgs.append("counter %s = %d < %d" % (c, counters.get(c, 0), minimum))
+        return msgs
+
+    return dict(targets=targets, jobs=jobs, gates=gates, rule=rule, assumptions=ASSUME_XRT, level="exploration")
+
+
+_RECLAIM_RULE = ("each evaluation = one generated protocol-conforming client program over 1-3 shared concurrent_ptr cells (2-4 threads plus up to 2 late "
+                 "threads that start after another thread exited; publish / unlink+reclaim / acquire / acquire_if_equal / copy / move / swap / reset / "
+                 "region_guard / deref) run under one seeded schedule, followed by a public-API-only flush by fresh threads; lifetime registry: guard table x "
+                 "deleter events; distinct_nontrivial = distinct (program, call/return order, results) hashes with overlapping operations of different threads")
+PLANS["C01"] = plan_reclaim("C01", r"^proto_", 500, 8000, _RECLAIM_RULE,
+                            {"destroyed_while_other_thread_guards": 1000, "destroyed_in_history": 10000, "guards_registered": 10000})
+PLANS["C02"] = plan_reclaim("C02", r"^proto_", 500, 8000,
+                            _RECLAIM_RULE + "; census after the flush: every retired node destroyed exactly once by the deleter instance passed to reclaim()",
+                            {"destroyed_by_other_after_retirer_exit": 100, "destroyed_in_history": 10000})
+PLANS["C15"] = plan_reclaim("C15", r"^proto_", 500, 8000,
+                            _RECLAIM_RULE + "; guard algebra checked after every copy/move/swap/reset/self-assignment; snapshot claims of acquire / "
+                            "acquire_if_equal checked against the recorded value history of the source cell (one-sided interval reasoning)",
+                            {"guards_registered": 10000})
+PLANS["C17"] = plan_reclaim("C17", r"^gens_", 120, 2000,
+                            "each evaluation = 6-10 generations (rounds) of 3-6 short-lived threads (late threads start after another thread exited, so "
+                            "records of exited threads are adopted inside the history) running the reclaim protocol, each round followed by a flush by fresh "
+                            "threads; C01/C02 oracles stay armed; census of live heap blocks at quiescent points after G and 2G rounds must not grow with the "
+                            "number of threads created", {"generation_rounds": 1000, "destroyed_by_other_after_retirer_exit": 100})
+
 # ---------------------------------------------------------------------------------------------------- manifest metadata
 NOT_YET = {}
 _LEVEL_NOTE = ("Trusted base: the xrt runtime (scheduler, vector clocks, heap shadow) and the sequential models in monitors/; gcc 12 -O1 "
                "TSan-instrumented build of the header-only library from /repo's working tree; executions explored = seeded sample, not all schedules.")
 META = {
+    "C01": dict(design_ref="DESIGN.md 5/C01", technique="runtime monitoring: lifetime registry (guard table x destructor/deleter events) + never-reusing heap with freed shadow, controlled scheduler",
+                level_text="All 16 reclaimer configurations (LFRC, static/dynamic HP and HE, QSBR, stamp-it, 8 generic_epoch_based configurations) with thresholds and scan "
+                           "frequencies chosen so that reclamation happens inside 10-40 operation histories; every destructor event is checked against the set of guards "
+                           "that the harness knows to be protecting, every access through a guard against the freed-memory shadow.",
+                level_note=_LEVEL_NOTE),
+    "C02": dict(design_ref="DESIGN.md 5/C02", technique="runtime monitoring: per-object retire/deleter/destructor counters + end-of-history census after a bounded public-API flush",
+                level_text="Same executions as C01; exactly-once destruction, deleter identity (stateful deleter tokens) and hand-over of retire lists of exited threads are "
+                           "decided at the quiescent end after a flush whose iteration bound (10 000) is two orders of magnitude above what the slowest scheme needs.",
+                level_note=_LEVEL_NOTE + " 'Eventually' is restated as bounded progress of the flush."),
+    "C15": dict(design_ref="DESIGN.md 5/C15", technique="runtime monitoring: reference-model monitor (shared-ownership model of guards, value history of cells) over random guard operation sequences",
+                level_text="guard_ptr algebra and snapshot claims for all 16 reclaimer configurations inside concurrent histories (other threads keep replacing the source). "
+                           "The marked_ptr bit model and the single-thread bounded-exhaustive guard sequences of the design are not built yet; this check covers parts (c) and (d).",
+                level_note=_LEVEL_NOTE),
+    "C17": dict(design_ref="DESIGN.md 5/C17", technique="runtime monitoring: allocation census at quiescent points across thread generations + C01/C02 oracles across control-block reuse",
+                level_text="6-10 generations of short-lived threads per execution with adoption of exited threads' records inside the history; the number of live heap blocks "
+                           "at quiescent points must be independent of the number of threads ever created.",
+                level_note=_LEVEL_NOTE),
     "C04": dict(design_ref="DESIGN.md 5/C04", technique="runtime monitoring: recorded histories under a controlled scheduler + WGL linearizability oracle (FIFO model), heap shadow oracle",
                 level_text="Every generated program is executed for real (real threads, real reclaimers) under seeded hostile schedules with node sizes 1-16 so that "
                            "node hand-over, finalisation and reclamation happen inside 10-40 operation histories; each history plus final drain is decided by an exact "
